@@ -113,6 +113,7 @@ func stateNonNilAt(f *ssa.Function, in ssa.Instruction, fld *types.Var) bool {
 
 func c18(c *Ctx) {
 	defer c18everyAttemptCounted(c)
+	defer c18selectCommitsLast(c)
 	P, R := c.P, c.R
 	R.Explain("R18.1", "guarded-by-login (T-DOM, inter-procedural): in internal/session every method call on Session.state (other than the nil-safe getters, derived: methods that begin with a receiver nil test) is dominated by the non-nil edge of a test of s.state in the same function or, failing that, at every static call site of the function up to 4 frames; closures inherit the guard that dominates their creation.")
 	R.Explain("R18.2", "T-WRITERS: Session.state is assigned only in handleLogin, from the result of Backend.GetState on its nil-error edge; State.user only in NewState; StateUserInterfaceImpl.u only in its constructor (a state can only reach the database/store/connector of the user it was created for).")
@@ -612,4 +613,49 @@ func c18everyAttemptCounted(c *Ctx) {
 		R.Check(ok, "R18.6", c.name(f)+"|return", P.Pos(ret.Pos()), "the attempt went through Backend.GetState (or the session was already authenticated)", "handleLogin can answer a LOGIN without calling Backend.GetState: that attempt is not delayed by an active login jail and its failure is not counted towards the next one")
 	}
 	R.Min("R18.6", "returns of handleLogin", n, 2)
+}
+
+// c18selectCommitsLast (R18.7): a failed SELECT / EXAMINE leaves the session unselected.
+func c18selectCommitsLast(c *Ctx) {
+	P, R := c.P, c.R
+	R.Explain("R18.7", "the selected state is entered last: in State.Select and State.Examine, after the store that installs the new snapshot (State.snap = snap) the only return that can be reached is the one returning the result of the caller's callback; an error return after the store would answer NO to SELECT while the session already counts as selected, so that selected-state commands are served although no mailbox was selected.")
+	snapFld := c.fieldOf("internal/state", "State", "snap")
+	n := 0
+	for _, name := range []string{"internal/state.(*State).Select", "internal/state.(*State).Examine"} {
+		f := c.fn("R18.7", name)
+		if f == nil {
+			continue
+		}
+		for _, b := range f.Blocks {
+			for _, in := range b.Instrs {
+				st, ok := in.(*ssa.Store)
+				if !ok || !fieldAddrIs(st.Addr, snapFld) || engine.IsNilConst(st.Val) {
+					continue
+				}
+				n++
+				bad := ""
+				for _, ret := range engine.Returns(f) {
+					if !engine.InstrReaches(st, ret) {
+						continue
+					}
+					// allowed: `return fn(...)` - the result of calling a function-typed parameter
+					lr := engine.LastResult(ret)
+					okRet := false
+					if call, isCall := lr.(*ssa.Call); isCall {
+						if _, isParam := call.Call.Value.(*ssa.Parameter); isParam && !call.Call.IsInvoke() {
+							okRet = true
+						}
+					}
+					if engine.IsNilConst(lr) {
+						okRet = true
+					}
+					if !okRet {
+						bad = P.Pos(ret.Pos())
+					}
+				}
+				R.Check(bad == "", "R18.7", c.name(f)+"|snapshot installed last", P.Pos(st.Pos()), "no failure return after the snapshot is installed", "after State.snap is set an error return ("+bad+") is still reachable: SELECT/EXAMINE is answered NO but the session is treated as selected")
+			}
+		}
+	}
+	R.Min("R18.7", "snapshot installations in Select/Examine", n, 2)
 }
